@@ -127,6 +127,44 @@ CLAIMS = {
     },
 }
 
+# function-body tie (tools/gen_fns.py -> Mb2/Gen/Fns.lean, regenerated from /repo on every run; theorems in Mb2/Props/Fns*.lean)
+FNS = {
+    "C14": "increase_to_alignment, BytesRef::try_from, the size guard of ref_from_bytes, the default Header::total_size, payload_len of the four header kinds, total_size of the two structure headers",
+    "C02": "BootInformation::load (precedence null pointer -> memory error of ref_from_ptr -> missing end tag -> Ok), BootInformationHeader::payload_len / total_size",
+    "C03": "TagIter::next (exhaustion test, assert, offset arithmetic incl. the rounding, bounds of the sub-slice; tagIterNext_eq ties it to the model's step), increase_to_alignment, TagHeader::payload_len",
+    "C10": "Multiboot2Header::load (precedence null -> memory error -> magic -> checksum), calc_checksum, verify_checksum, Multiboot2BasicHeader::payload_len / total_size",
+    "C05": "dst_len of all nine dynamically sized boot-information tags and of the information-request header tag (BASE_SIZE constants evaluated from the source)",
+    "C15": "dst_len of all nine dynamically sized boot-information tags (the truthful declarations the cast relies on)",
+    "C20": "From<u32> for TagType, From<TagType> for u32, TagType::val, MemoryAreaType <-> MemoryAreaTypeId, ElfSection::section_type (all arms and both ranges), FramebufferTypeId::try_from - each for ALL values",
+    "C18": "EFIMemoryMapTag::memory_areas (version, alignment), EFIMemoryAreaIter::new (desc_size >= 40, % 8, length % desc_size, entry count), next (both branches, index update), len",
+    "C19": "ElfSectionsTag::sections (both bounds in u64, no overflow for u32 operands), ElfSection::section_type",
+    "C04": "RsdpV2Tag::checksum_is_valid (length bound 36 before summing), MemoryMapTag::memory_areas (entry size 24), ModuleTag::module_size, MemoryArea::end_address, FramebufferTypeId::try_from",
+    "C08": "the payload_len / total_size functions and TagIter::next for BOTH profiles (the evaluator implements dev = panic on overflow, release = wrap)",
+    "C09": "HeaderTagHeader::payload_len, InformationRequestHeaderTag::dst_len, TagIter::next",
+    "C11": "InformationRequestHeaderTag::dst_len",
+    "C01": "TagIter::next, all nine dst_len, the EFI iterator (memory_areas / new / next / len), ElfSectionsTag::sections, RsdpV2Tag::checksum_is_valid, MemoryMapTag::memory_areas - the guards that keep every read inside the tag",
+}
+for _p, _t in FNS.items():
+    CLAIMS[_p]["text"] = ("SOURCE = MODEL for function bodies (translator tools/gen_fns.py -> Mb2/Gen/Fns.lean, regenerated from /repo's working tree on "
+                          "every run; Lean theorems Mb2.Fns.*_eq prove for ALL argument values and both build profiles that evaluating the translated body "
+                          "(IR + evaluator Mb2/Rir.lean) equals the hand-written model function): " + _t + ". " + CLAIMS[_p]["text"])
+    CLAIMS[_p]["technique"] = CLAIMS[_p]["technique"] + " + source-to-IR translation of the function bodies with kernel-checked equivalence to the model"
+    CLAIMS[_p]["note"] = CLAIMS[_p]["note"] + "; the function translator (a hand-written parser for the Rust fragment used, semantics of the IR evaluator: dev panics / release wraps on overflow, `as` casts truncate, untyped literals take the operand type); sub-expressions it treats as opaque inputs are universally quantified in the theorems"
+
+CLAIMS["C07"]["text"] = ("SOURCE = MODEL for the constructors (translator tools/gen_fns.py): Mb2.Fns.ctor_*_eq (23 theorems, all argument values) - the translated body of every "
+                         "fixed-size tag constructor of both crates evaluates to ((type through Tag::ID resp. the HeaderTagType variant, the model's UNPADDED fixed size), "
+                         "arguments in struct declaration order): a padded size constant, a wrong ID or two swapped same-width arguments breaks the constructor's obligation. " + CLAIMS["C07"]["text"])
+CLAIMS["C07"]["technique"] += " + source-to-IR translation of the constructor bodies with kernel-checked equivalence to the model"
+for _p, _b in (("C06", "multiboot2::Builder"), ("C12", "multiboot2_header::Builder")):
+    CLAIMS[_p]["text"] = ("SOURCE = MODEL for the builder (translator tools/gen_builders.py -> Mb2/Gen/Builders.lean, regenerated on every run): Mb2.Builders.*_build_is_model / "
+                          "*_setters_are_model / *_fields_are_model prove by `decide` that `build()` of " + _b + " in the CURRENT source is exactly the straight-line emission the "
+                          "model folds over (structure header, one `if let Some` per Option slot and one `for` per Vec slot in the model's slot order, end tag, new_boxed - no "
+                          "filter, sort, condition or second push), that every slot has exactly one setter (assignment for single-valued kinds = the last call wins, push for "
+                          "repeatable kinds = all in call order) and that the field kinds are the model's repeatable flags. " + CLAIMS[_p]["text"])
+    CLAIMS[_p]["technique"] += " + statement-level translation of build() and the setters with `decide`-checked agreement with the model's slot table"
+CLAIMS["C19"]["text"] = "iter_eq_filter: over entries inside the extent the iterator yields EXACTLY the in-use entries in index order (filterMap over 0..n-1: nothing dropped, duplicated or reordered). " + CLAIMS["C19"]["text"]
+CLAIMS["C02"]["text"] = "has_valid_end_tag_eq / has_valid_end_tag_reads_last_8: the translated end-tag check is `typ == 0 && size == 8` on the header `size_of::<EndTag>()` bytes before the end of the payload. " + CLAIMS["C02"]["text"]
+
 NOT_YET = "not yet claimed: the Lean model, theorems and correspondence check for this property are still being built (DESIGN.md section 12 gives the order); the technique applies and the property will be claimed"
 
 
